@@ -506,7 +506,19 @@ pub fn script(kind_arg: &str, seed: u64, count: usize) -> Vec<J> {
                 }
             }
             "pairs" | "pairs_repr" => {
-                let e = if g.r.gen_range(0..4) == 0 { g.doc(3, 3) } else { g.mutate(&d) };
+                // size asymmetry x order (C13-R9A): for the array set functions one operand in four is a shuffled
+                // multiple of the other's elements, two to eight times as long, with fresh scalars mixed in
+                let asym = fixed_op.as_deref().map_or(false, |o| o.starts_with("array_")) && g.r.gen_range(0..4) == 0;
+                let e = match &d {
+                    Value::Array(a) if asym && !a.is_empty() => {
+                        let target = a.len() * g.r.gen_range(2..9);
+                        let mut b: Vec<Value<'static>> = Vec::new();
+                        while b.len() < target { if g.r.gen_range(0..3) == 0 { b.push(g.scalar()); } else { let i = g.r.gen_range(0..a.len()); b.push(a[i].clone()); } }
+                        for i in (1..b.len()).rev() { let j = g.r.gen_range(0..=i); b.swap(i, j); }
+                        Value::Array(b)
+                    }
+                    _ => if g.r.gen_range(0..4) == 0 { g.doc(3, 3) } else { g.mutate(&d) },
+                };
                 let op: &str = match &fixed_op {
                     Some(o) => o.as_str(),
                     None => *g.pick(&["compare", "contains", "comparable2", "concat", "array_intersection", "array_except", "array_overlap"]),
